@@ -175,6 +175,7 @@ func explore(w *World, cfg *Config, entry *ssa.Function, nw int, deadline time.T
 		Funcs: map[string]int{}, Intercepts: map[string]int{}, Assumes: map[string]bool{}, FnInstr: map[string]int{}, ForkSites: map[string]int{}, UnknownMsgs: map[string]int{}, SecondOp: map[string]int{}}
 	t0 := time.Now()
 	lastProg := t0
+	violSeen := map[string]int{}
 	progress := os.Getenv("VERIF_PROGRESS") != ""
 	var mu sync.Mutex
 	cond := sync.NewCond(&mu)
@@ -265,8 +266,16 @@ func explore(w *World, cfg *Config, entry *ssa.Function, nw int, deadline time.T
 				if len(hr.Samples) < 6 {
 					hr.Samples = append(hr.Samples, res.Samples...)
 				}
-				if len(hr.Violations) < 50 {
-					hr.Violations = append(hr.Violations, res.Violations...)
+				// keep a few counterexamples per distinct (kind, message, known-finding tags): a flood of
+				// counterexamples of one kind (e.g. a listed known finding) must never crowd out another kind
+				for _, v := range res.Violations {
+					tg := append([]string(nil), v.Tags...)
+					sort.Strings(tg)
+					key := v.Kind + "|" + v.Msg + "|" + strings.Join(tg, ",")
+					if violSeen[key] < 3 {
+						violSeen[key]++
+						hr.Violations = append(hr.Violations, v)
+					}
 				}
 				work = append(work, ex.pending...)
 				if progress && time.Since(lastProg) > 15*time.Second {
